@@ -36,9 +36,22 @@ class Factor:
             if k < 45 and len(it) >= 2:
                 name = self.fresh()
                 cut = g.int(1, len(it) - 1)
-                self.add(name, it[:cut])                    # string macro used inside a name
-                self.forms.append("substring")
-                return name + it[cut:]
+                where = g.int(0, 2)
+                if where == 0 or "@" in it:
+                    self.add(name, it[:cut])                # string macro used inside a name: at its start,
+                    self.forms.append("substring")
+                    return name + it[cut:]
+                if where == 1:
+                    self.add(name, it[cut:])                # ... at its end (the use does not start with @),
+                    self.forms.append("substring-suffix")
+                    return it[:cut] + name
+                a = g.int(0, cut)
+                self.add(name, it[a:cut])                   # ... or in the middle
+                if not it[a:cut]:
+                    self.macros.pop()
+                    return it
+                self.forms.append("substring-middle")
+                return it[:a] + name + it[cut:]
             if k < 55:
                 name = self.fresh()
                 self.add(name, it)                          # string macro, whole string
